@@ -106,7 +106,7 @@ def run(chk):
     chk.log(f"{len(cases)} decodes; implementation-side failures: {len(fails)}; slowest {slowest:.3f}s")
     chk.coverage["traces_validated_against_impl"] = len(cases)
     mism = []
-    if broken is None:
+    if broken is None or chk.corr_buildable(["Corr/Serde.vo"]):
         try:
             mism = common.run_cases("Serde", cases)
         except common.CoqError as e:
